@@ -509,5 +509,17 @@ theorem sound_refDec (o : RefDecObs) (c : Clause) (h : refDecMonitor o = some c)
   · simp [refDecMonitor] at h
   · simp [refDecMonitor, hc, hw, hs] at h
 
+/-! ## what a retried request carries -/
+
+/-- the retried request carries the fulfilled responses and the request state intact, and the server's decoder reads
+them as the same keys, each with the kind of its response, and the same state -/
+def P_retryIntact (rs : List (Bytes × JVal)) (state : Bytes) (o : RetryObs) : Prop :=
+  respIntact rs o = true ∧ stateIntact state o = true ∧ backAlike rs state o = true
+
+theorem sound_retry (rs : List (Bytes × JVal)) (state : Bytes) (o : RetryObs) (c : Clause)
+    (h : retryMonitor rs state o = some c) : ¬ P_retryIntact rs state o := by
+  rintro ⟨h1, h2, h3⟩
+  simp [retryMonitor, h1, h2, h3] at h
+
 end Mon
 end Wire
